@@ -1,6 +1,6 @@
 """property id -> units and reporting metadata (single source for MANIFEST.json)"""
 from units import (specificity, best, fragments, static_list, hashing, vptrs, resolve, generator, handlers,
-                   virtual_ptr, deferred, slots)
+                   virtual_ptr, deferred, slots, install)
 
 A_TABLES = ('compiler::build_dispatch_tables (grouping of classes by applicability mask, stride products, recursion order, '
             'v-table entry filling) is NOT under contract (std::map<dynamic_bitset,...>, recursion over containers): '
@@ -30,7 +30,7 @@ T_SHAPES = ('partial evaluator instantiating the resolve / handler templates per
 
 PROPS = {
     'C01': {
-        'units': [specificity.jobs, best.jobs, fragments.jobs, hashing.jobs, vptrs.jobs, resolve.jobs, slots.jobs],
+        'units': [specificity.jobs, best.jobs, fragments.jobs, hashing.jobs, vptrs.jobs, resolve.jobs, slots.jobs, install.jobs],
         'level': 'proof',
         'technique': 'CBMC/DFCC function + loop contracts on extracted is_more_specific; ' + T_SHAPES +
                      ' for method::resolve*; contracts on the v-table pointer lookups; bounded CBMC on best(), the cell step and slot allocation',
@@ -74,7 +74,7 @@ PROPS = {
         'assumptions': [],
     },
     'C04': {
-        'units': [slots.jobs, resolve.jobs, vptrs.jobs],
+        'units': [slots.jobs, resolve.jobs, vptrs.jobs, install.jobs],
         'level': 'proof',
         'technique': T_SHAPES + ' with bounds / pointer checks and a checked word-to-pointer shim for every read of the call path; '
                      'bounded CBMC over every inheritance DAG for assign_slots / assign_tree_slots / assign_lattice_slots',
@@ -121,7 +121,7 @@ PROPS = {
         'assumptions': [],
     },
     'C07': {
-        'units': [static_list.jobs, hashing.jobs, vptrs.jobs, deferred.jobs],
+        'units': [static_list.jobs, hashing.jobs, vptrs.jobs, deferred.jobs, install.jobs],
         'level': 'proof',
         'technique': 'Skolem-heap contracts on the registration lists, hash / vptr obligations proved from arbitrary prior values of every surviving static, '
                      'bounded CBMC on deferred-id resolution over repeated updates',
@@ -159,7 +159,7 @@ PROPS = {
         'assumptions': [],
     },
     'C12': {
-        'units': [generator.jobs, resolve.jobs],
+        'units': [generator.jobs, resolve.jobs, install.jobs],
         'level': 'proof',
         'technique': T_SHAPES + ' with static offsets and runtime checks on; bounded CBMC (arity <= 8) on extracted write_static_offsets',
         'level_text': 'The consumer defines the layout: the resolve proofs read slot k at slots_strides[k] and stride k at [arity + k - 1]. write_static_offsets is checked '
